@@ -312,3 +312,23 @@ def gen_oracle_table(rng, prog, p_err=0.15, p_cancel=0.0):
         elif r < p_err + p_cancel:
             tbl['%s:0' % t['name']] = ['cancel']
     return tbl
+
+
+def route_counts(prog):
+    """number of on-clause entries (after task-defaults resolution) that target each task"""
+    cnt = {t['name']: 0 for t in prog['tasks']}
+    for t in prog['tasks']:
+        for nm in out_names(prog, t):
+            if nm in cnt:
+                cnt[nm] += 1
+    return cnt
+
+
+def make_single_activation(prog):
+    """every task that more than one on-clause entry can trigger becomes a join (a non-join task
+    triggered twice gets two executions: outside the single-activation class of the engine model)"""
+    rc = route_counts(prog)
+    for t in prog['tasks']:
+        if rc[t['name']] >= 2 and t.get('join') is None:
+            t['join'] = 'all'
+    return prog
